@@ -120,9 +120,16 @@ def run_in_child(world, index, tier, seed, replay=None, want_decoded=False, time
 # ---------------------------------------------------------------------------
 # lanes
 # ---------------------------------------------------------------------------
-def _lane(world, lane, jobs, indices, tier, seed, deadline, out_fd, per_run_timeout, sample_idx):
+def _lane(world, lane, jobs, indices, tier, seed, deadline, out_fd, per_run_timeout, sample_idx, counter):
     consecutive_errors = 0
-    for i in indices[lane::jobs]:
+    while True:
+        # lanes take the next index from a shared counter, so a few long runs do not hold up a whole stride
+        with counter.get_lock():
+            k = counter.value
+            counter.value += 1
+        if k >= len(indices):
+            break
+        i = indices[k]
         if time.time() > deadline or consecutive_errors >= 2:
             break
         res = run_in_child(world, i, tier, seed, want_decoded=(i in sample_idx), timeout=per_run_timeout)
@@ -143,6 +150,8 @@ def run_batch(world, indices, tier, seed, jobs, wall_budget, per_run_timeout, sa
     pids = []
     sys.stdout.flush()
     sys.stderr.flush()
+    import multiprocessing
+    counter = multiprocessing.get_context("fork").Value("i", 0)
     for lane in range(jobs):
         r, w = os.pipe()
         pid = os.fork()
@@ -152,7 +161,7 @@ def run_batch(world, indices, tier, seed, jobs, wall_budget, per_run_timeout, sa
                 os.close(rr)
             try:
                 _lane(world, lane, jobs, indices, tier, seed, deadline, w, per_run_timeout,
-                      set(sample_idx))
+                      set(sample_idx), counter)
             finally:
                 os._exit(0)
         os.close(w)
@@ -277,7 +286,7 @@ def check(world, tier, seed, jobs=None, runs=None, replay_path=None, digests=Non
     selftest = {"seeds": n_self, "same_process_tree_mismatch": 0, "fresh_interpreter_hashseed7_mismatch": None}
     by_index = {r.get("index"): r for r in results}
     if n_self:
-        again = run_batch(world, indices[:n_self], tier, seed, 1, 600, per_run_timeout)
+        again = run_batch(world, indices[:n_self], tier, seed, min(4, jobs), 600, per_run_timeout)
         for r in again:
             a = by_index.get(r.get("index"), {})
             if a.get("digest") != r.get("digest"):
